@@ -59,7 +59,7 @@ from liquid2.exceptions import TemplateInheritanceError
 HUGE_OUT = 10**12
 HUGE_NS = 10**15
 MAX_DEPTH = 4
-WORK_BOUND = 1500  # static bound on loop body executions of one render
+WORK_BOUND = 800  # static bound on loop body executions of one render
 
 LOOP_CONSTRUCTS = ("for", "tablerow", "render-for", "include-for")
 OUTER_FLAGS = {"render-for": "render-for-outer", "include-for": "include-for-outer", "tablerow": "tablerow-outer"}
